@@ -355,3 +355,185 @@ mod tests {
         assert_eq!(camel("Foo"), "foo");
     }
 }
+
+/// What a program contains, used to choose programs per property and to count reach.
+#[derive(Clone, Debug, Default)]
+pub struct Features {
+    pub named: bool,
+    pub strukt: bool,
+    pub tagged: bool,
+    pub unit_enum: bool,
+    pub deny: bool,
+    pub no_deny_fields: bool,
+    pub conv: bool,
+    pub try_conv: bool,
+    pub validate: bool,
+    pub map_fn: bool,
+    pub default: bool,
+    pub skip: bool,
+    pub missing_fn: bool,
+    pub error_b: bool,
+    pub wrapper: bool,
+    pub map_target: bool,
+    pub array: bool,
+    pub tuple: bool,
+    pub set: bool,
+    pub cs: bool,
+    pub json: bool,
+    pub option: bool,
+    pub vec: bool,
+    pub tag_clash: bool,
+    pub rename: bool,
+    pub recursive: bool,
+}
+
+impl Catalogue {
+    pub fn features(&self, root: &Desc) -> Features {
+        let mut f = Features::default();
+        let mut seen: Vec<usize> = vec![];
+        self.feat(root, &mut f, &mut seen);
+        f
+    }
+
+    fn feat_fields(&self, fields: &[FieldDef], rename_all: Option<RenameAll>, tag: Option<&str>, f: &mut Features, seen: &mut Vec<usize>) {
+        if rename_all.is_some() {
+            f.rename = true;
+        }
+        for fd in fields {
+            if fd.rename.is_some() {
+                f.rename = true;
+            }
+            if fd.skip {
+                f.skip = true;
+            }
+            if fd.default != Dflt::No {
+                f.default = true;
+            }
+            if fd.missing_fn.is_some() {
+                f.missing_fn = true;
+            }
+            if fd.map.is_some() {
+                f.map_fn = true;
+            }
+            if fd.error_b {
+                f.error_b = true;
+            }
+            match &fd.conv {
+                Conv::No => {}
+                Conv::From { .. } => f.conv = true,
+                Conv::TryFrom { .. } => {
+                    f.conv = true;
+                    f.try_conv = true;
+                }
+            }
+            if let Some(t) = tag {
+                if !fd.skip && fd.key(rename_all) == t {
+                    f.tag_clash = true;
+                }
+            }
+            if !fd.skip {
+                self.feat(fd.src_ty(), f, seen);
+            }
+        }
+    }
+
+    fn feat(&self, d: &Desc, f: &mut Features, seen: &mut Vec<usize>) {
+        match d {
+            Desc::Probe(_) | Desc::Scalar(_) => {}
+            Desc::Option(x) => {
+                f.option = true;
+                self.feat(x, f, seen)
+            }
+            Desc::Boxed(x) => self.feat(x, f, seen),
+            Desc::Vec(x) => {
+                f.vec = true;
+                self.feat(x, f, seen)
+            }
+            Desc::HashSet(x) | Desc::BTreeSet(x) => {
+                f.set = true;
+                self.feat(x, f, seen)
+            }
+            Desc::HashMap(_, x) | Desc::BTreeMap(_, x) => {
+                f.map_target = true;
+                self.feat(x, f, seen)
+            }
+            Desc::Array(_, x) => {
+                f.array = true;
+                self.feat(x, f, seen)
+            }
+            Desc::Tuple(xs) => {
+                f.tuple = true;
+                for x in xs {
+                    self.feat(x, f, seen);
+                }
+            }
+            Desc::Cs(_) => f.cs = true,
+            Desc::Json => f.json = true,
+            Desc::Named(i) => {
+                f.named = true;
+                if seen.contains(i) {
+                    f.recursive = true;
+                    return;
+                }
+                seen.push(*i);
+                match &self.types[*i].kind {
+                    TypeKind::Struct { rename_all, deny, validate, fields } => {
+                        f.strukt = true;
+                        if *deny != Deny::No {
+                            f.deny = true;
+                        } else {
+                            f.no_deny_fields = true;
+                        }
+                        if *validate != Validate::No {
+                            f.validate = true;
+                        }
+                        self.feat_fields(fields, *rename_all, None, f, seen);
+                    }
+                    TypeKind::Tagged { tag, rename_all, deny, validate, variants } => {
+                        f.tagged = true;
+                        if rename_all.is_some() {
+                            f.rename = true;
+                        }
+                        if *validate != Validate::No {
+                            f.validate = true;
+                        }
+                        for v in variants {
+                            if v.rename.is_some() {
+                                f.rename = true;
+                            }
+                            if let Some(fields) = &v.fields {
+                                if *deny != Deny::No {
+                                    f.deny = true;
+                                } else {
+                                    f.no_deny_fields = true;
+                                }
+                                self.feat_fields(fields, v.rename_all, Some(tag), f, seen);
+                            }
+                        }
+                    }
+                    TypeKind::UnitEnum { rename_all, validate, variants } => {
+                        f.unit_enum = true;
+                        if rename_all.is_some() || variants.iter().any(|v| v.rename.is_some()) {
+                            f.rename = true;
+                        }
+                        if *validate != Validate::No {
+                            f.validate = true;
+                        }
+                    }
+                    TypeKind::Wrapper { src, fallible, validate, .. } => {
+                        f.wrapper = true;
+                        f.conv = true;
+                        if *fallible {
+                            f.try_conv = true;
+                        }
+                        if *validate != Validate::No {
+                            f.validate = true;
+                        }
+                        self.feat(src, f, seen);
+                    }
+                }
+                seen.pop();
+            }
+        }
+    }
+}
